@@ -350,6 +350,32 @@ def r5_test_start_plugs(report, repo):
                'call')
 
 
+def r5b_work_list(report, repo):
+  rule = 'C08-R5'
+  f = repo.func(PL, 'PlugManager.initialize_plugs')
+  par = lib.param_names(f.node)[1]
+  loops = [n for n in walk_no_nested(f.node) if isinstance(n, ast.For)]
+  src = dotted(loops[0].iter) if loops else None
+  defs = lib.resolve_local(f, src) if src and src != par else []
+  ok = False
+  for d in defs:
+    if isinstance(d, ast.IfExp) and isinstance(d.test, ast.Compare) and \
+        dotted(d.test.left) == par and isinstance(
+            d.test.comparators[0], ast.Constant) and \
+        d.test.comparators[0].value is None:
+      given, other = (d.body, d.orelse) if isinstance(
+          d.test.ops[0], ast.IsNot) else (d.orelse, d.body)
+      ok = dotted(given) == par and dotted(other) == 'self._plug_types'
+  report.check(ok and len(defs) == 1, rule, f.qualname, 'explicit-empty-list',
+               f.node,
+               'the plugs to construct are `plug_types` whenever it is given '
+               '(also when empty), else the test\'s plug types',
+               'the work list is %s: an explicitly empty list (test_start '
+               'without plugs) falls through to ALL plug types, which are then '
+               'constructed before test_start runs' %
+               [norm(d) for d in defs])
+
+
 def r6_injection(report, repo):
   rule = 'C08-R6'
   report.rule(rule, 'T-AGREE: PhaseDescriptor.__call__ hands (plug.name, '
@@ -401,6 +427,7 @@ def run(report, repo):
   r3_teardown(report, repo)
   r4_order(report, repo)
   r5_test_start_plugs(report, repo)
+  r5b_work_list(report, repo)
   r6_injection(report, repo)
   from sa.rules import c01, c03  # pylint: disable=g-import-not-at-top
   c01.r4_teardown_ladder(report, repo, rule='C08-R4l')
